@@ -25,6 +25,7 @@ def rd(ctx, N, M=16, B=4, K=1, qN=None, tiers=("quick", "thorough"), labels=None
     r["params"]["TAILLO"] = 0
     r["params"]["WRAPEOF"] = 0
     r["params"]["LITCAP"] = 0
+    r["params"]["ONLY"] = 2 if labels and "C02:" in labels else 0
     if tN is not None:
         r["thorough"] = {"N": tN}
     elif harness == "VerifRdOracle":
@@ -35,7 +36,7 @@ def rd(ctx, N, M=16, B=4, K=1, qN=None, tiers=("quick", "thorough"), labels=None
     return r
 
 
-RD_CONTEXTS_Q = [(0, 3), (1, 2), (2, 2), (3, 2), (6, 1), (4, 6), (5, 5), (7, 7), (8, 7), (11, 2), (12, 2), (16, 2), (17, 2), (24, 2), (25, 1), (26, 1), (52, 2), (57, 2), (60, 2)]
+RD_CONTEXTS_Q = [(0, 3), (1, 2), (2, 2), (3, 2), (6, 1), (4, 6), (5, 5), (7, 7), (8, 7), (9, 7), (11, 2), (12, 2), (16, 2), (17, 2), (24, 2), (25, 1), (26, 1), (52, 2), (57, 2), (60, 2)]
 
 def rdp(harness, ctx, N, picks, labels, covers=(), M=16, tiers=("quick", "thorough"), extra=None):
     r = rd(ctx, N, M=M, labels=labels, covers=covers, harness=harness, tiers=tiers, extra=extra)
@@ -52,15 +53,17 @@ CHECKS = {
         "runs": [rd(c, n, labels=["C02:", "REF:"], covers=["complete"] if c not in (3, 6, 8, 17, 25, 26, 57, 60) else []) for c, n in RD_CONTEXTS_Q] +
                 [rd(6, 2, K=k, labels=["C02:", "REF:"]) for k in (0, 2, 3)] +
                 [rd(27, 3, M=300, labels=["C02:", "REF:"], covers=["complete"], extra={"LITCAP": 2})] +
+                [rd(47, 5, M=300, labels=["C02:", "REF:"], covers=["complete"], extra={"LITCAP": 1})] +
                 [rd(c, n, labels=["C02:", "REF:"], tiers=["thorough"]) for c, n in RD_CONTEXTS_T],
         "assumptions": ["oracle: reference inflater (harness/common/zz_verif_ref.go.tmpl, strict mode) cross-checked on every path against the real compress/flate executed symbolically on the same bytes (REF:* assertions)",
                         "window harness: stream = concrete context prefix ++ N symbolic bytes ++ suffix; output of the window bounded by M bytes (longer outputs are cut by Assume)"],
     },
     "C03": {
         "level": "model_checking",
-        "runs": [rd(c, n, labels=["C03:"], covers=["truncated"] if c not in (25, 26, 60) else []) for c, n in RD_CONTEXTS_Q] +
+        "runs": [rd(c, n, labels=["C03:"], covers=["truncated"] if c not in (8, 25, 26, 60) else []) for c, n in RD_CONTEXTS_Q] +
                 [rd(6, 2, K=k, labels=["C03:"]) for k in (0, 2, 3)] +
                 [rd(27, 3, M=300, labels=["C03:"], extra={"LITCAP": 2})] +
+                [rd(47, 5, M=300, labels=["C03:"], extra={"LITCAP": 1})] +
                 [rd(c, n, labels=["C03:"], tiers=["thorough"]) for c, n in RD_CONTEXTS_T] +
                 [rdp("VerifRdReset", 0, 2, {"olderr": oe, "wp": wp}, ["C13:"], ["ran"]) for (oe, wp) in [(0, 1), (1, 3)]],
         "assumptions": ["oracle: reference inflater strict + permissive; stdlib compress/flate executed symbolically for error kinds",
